@@ -16,13 +16,15 @@ FAMILIES = {
     "shutdownA": {"quick": 150, "thorough": 3000},  # graceful / abrupt shutdown of the real server at any moment
     "shutdownBs": {"quick": 200, "thorough": 4000}, # graceful shutdown with delayed shutdown-PING ack, user pings, stray PING ACKs
     "abuseB": {"quick": 400, "thorough": 8000},     # legal prefix + protocol violations / legal-but-unusual frames + probe, both roles
-    "floodBs": {"quick": 50, "thorough": 1500},     # hostile scripted client floods a real server with small limits (rapid reset, refused streams, tiny/empty DATA, CONTINUATION, PING/SETTINGS, stream errors, oversize lists), slow / non-accepting application, blocked writes; dense statistics
-    "floodBc": {"quick": 50, "thorough": 1500},     # hostile scripted server floods a real client (PUSH_PROMISE, 1xx, tiny/empty DATA, PING/SETTINGS, CONTINUATION, promise+reset)
-    "wuBurstBs": {"quick": 40, "thorough": 1000},   # 40-130 streams owe a WINDOW_UPDATE at once while the endpoint's writes are blocked and its write buffer is nearly full
+    "floodBs": {"quick": 50, "thorough": 500},     # hostile scripted client floods a real server with small limits (rapid reset, refused streams, tiny/empty DATA, CONTINUATION, PING/SETTINGS, stream errors, oversize lists), slow / non-accepting application, blocked writes; dense statistics
+    "floodBc": {"quick": 50, "thorough": 500},     # hostile scripted server floods a real client (PUSH_PROMISE, 1xx, tiny/empty DATA, PING/SETTINGS, CONTINUATION, promise+reset)
+    "mutateB": {"quick": 600, "thorough": 20000},   # C08 only: the scripted peer's byte stream corrupted (bit flips, replaced / dropped / doubled octets) after the preface, both roles, any fragmentation
+    "wuBurstBs": {"quick": 40, "thorough": 300},   # 40-130 streams owe a WINDOW_UPDATE at once while the endpoint's writes are blocked and its write buffer is nearly full
     "inlineA": {"quick": 600, "thorough": 12000},   # C20: handle operations executed INSIDE the read / write / flush callbacks of the connection task (parked handles), real client <-> real server
     "threadsA": {"quick": 1500, "thorough": 40000},   # C20: REAL parallel executions: connections and every request half on their own OS threads; handle call + log entry atomic under the transport's mutex, so the trace is a valid linearization
     "conformSend": {"quick": 40, "thorough": 1500},
     "conformStreams": {"quick": 150, "thorough": 3000},  # TLC simulation runs of MC_Streams (stream store / counters, server role) replayed on the real server
+    "conformTasks": {"quick": 150, "thorough": 3000},   # TLC simulation runs of MC_Tasks (wake-up protocol, both roles) replayed under the strict executor: the set of parked tasks compared at every quiescence
     "conformConn": {"quick": 400, "thorough": 6000},   # TLC simulation runs of MC_Conn (SETTINGS / PING / GOAWAY / shutdown machinery, both roles) replayed on the real library
     "conformRecv": {"quick": 80, "thorough": 3000},  # TLC simulation runs of MC_Recv replayed on the real server (byte-exact)  # TLC simulation runs of MC_Send (x ~3 behaviours each) replayed on the real client
 }
@@ -50,6 +52,19 @@ CONN_SLICES = [
      "timeout_quick": 1200, "timeout_thorough": 3000, "coverage": False},
 ]
 
+def _tasks_slice(q, t, what, workers=6):
+    return {"module": "MC_Tasks", "cfg_quick": q, "cfg_thorough": t, "workers": workers, "heap": "10g", "constants": what,
+            "timeout_quick": 1200, "timeout_thorough": 3000, "coverage": False}
+
+TASKS_SLICES = [
+    _tasks_slice("MC_Tasks_quick.cfg", "MC_Tasks_thorough.cfg", "client: 2 streams, send side (reserve / poll_capacity / send_data / poll_reset / send_reset / WINDOW_UPDATE / SETTINGS), every interleaving with the connection task's pop / reclaim / park"),
+    _tasks_slice("MC_Tasks_quick_open.cfg", "MC_Tasks_thorough_open.cfg", "client: SendRequest::poll_ready / pending open / MAX_CONCURRENT_STREAMS changes"),
+    _tasks_slice("MC_Tasks_quick_close.cfg", "MC_Tasks_quick_close.cfg", "client: handle drops, drop of the last SendRequest, GOAWAY, EOF (C07: nothing parked after the end)"),
+    _tasks_slice("MC_Tasks_quick_recv.cfg", "MC_Tasks_thorough_recv.cfg", "client: poll_response / poll_data / poll_trailers / release_capacity"),
+    _tasks_slice("MC_Tasks_quick_push.cfg", "MC_Tasks_quick_push.cfg", "client: PUSH_PROMISE / poll_push_promise"),
+    _tasks_slice("MC_Tasks_quick_server.cfg", "MC_Tasks_thorough_server.cfg", "server: accept / send_response / request body"),
+]
+
 PLAN = {
     "C01": {"rules": ["C01."], "families": WIRE_AB, "slices": [], "level": "exploration",
             "must_hit": ["C01.head", "C01.data", "C01.clean_end", "C01.trailers", "C01.info", "C01.push"]},
@@ -61,9 +76,9 @@ PLAN = {
             "must_hit": ["C04.stream_kind", "C04.id_order", "C04.after_es", "C04.data_state", "C04.contiguous"]},
     "C05": {"rules": ["C05."], "families": WIRE_AB + ["conformStreams"], "slices": [STREAMS_SLICE], "level": "model_checking",
             "must_hit": ["C05.send_limit"]},
-    "C06": {"rules": ["C06."], "families": ["mixA", "mixAd", "bpReset"], "slices": [], "level": "exploration", "must_hit": ["C06.progress"]},
+    "C06": {"rules": ["C06."], "families": ["mixA", "mixAd", "bpReset", "conformTasks"], "slices": TASKS_SLICES, "level": "model_checking", "must_hit": ["C06.progress"]},
     "C07": {"rules": ["C07."], "families": WIRE_AB, "slices": [], "level": "fault_enumeration", "must_hit": ["C07.resolved"]},
-    "C08": {"rules": ["C08."], "families": WIRE_AB, "slices": [], "level": "exploration", "must_hit": []},
+    "C08": {"rules": ["C08."], "families": WIRE_AB + ["mutateB"], "slices": [], "level": "exploration", "must_hit": []},
     "C09": {"rules": ["C09."], "families": WIRE_AB, "slices": [], "level": "exploration", "must_hit": ["C09.conn_error", "C09.stream_error", "C09.legal_not_penalised"]},
     "C10": {"engine": True, "rules": ["C10."], "level": "model_checking"},
     "C11": {"engine": True, "rules": ["C11."], "level": "model_checking"},
